@@ -208,6 +208,41 @@ func genWSMsg(t *rapid.T, c *WSCase, i int) *simrt.Msg {
 	}
 }
 
+// wsPretty inserts the whitespace ws after every structural [ { , : and before
+// every ] } of a JSON text (outside strings).
+func wsPretty(b []byte, ws string) []byte {
+	var out []byte
+	inStr, esc := false, false
+	for _, ch := range b {
+		if inStr {
+			out = append(out, ch)
+			switch {
+			case esc:
+				esc = false
+			case ch == '\\':
+				esc = true
+			case ch == '"':
+				inStr = false
+			}
+			continue
+		}
+		switch ch {
+		case '"':
+			inStr = true
+			out = append(out, ch)
+		case '[', '{', ',', ':':
+			out = append(out, ch)
+			out = append(out, ws...)
+		case ']', '}':
+			out = append(out, ws...)
+			out = append(out, ch)
+		default:
+			out = append(out, ch)
+		}
+	}
+	return out
+}
+
 // offCurvePubkey is a 32-byte value that is not the x coordinate of a point of
 // secp256k1 (found by search at start-up).
 var offCurvePubkey = func() string {
@@ -440,12 +475,22 @@ func (wsEngine) Gen(t *rapid.T, tier string) any {
 				continue
 			}
 		}
-		c.Frames = append(c.Frames, wsFrame{Kind: "valid", Payload: marshalNoEscape(msgWire(m)), Deliverable: true, Msg: m})
+		pl := marshalNoEscape(msgWire(m))
+		if rapid.IntRange(0, 3).Draw(t, "pretty") == 0 {
+			// the same JSON text with insignificant whitespace (space, tab, LF, CR)
+			pl = wsPretty(pl, rapid.SampledFrom([]string{" ", "\n  ", "\r\n\t", "\t", "\r", " \r\n "}).Draw(t, "ws"))
+		}
+		c.Frames = append(c.Frames, wsFrame{Kind: "valid", Payload: pl, Deliverable: true, Msg: m})
 	}
-	if c.Opt.MaxLen == 4000 && rapid.IntRange(0, 1).Draw(t, "atlimit") == 0 {
+	if rapid.IntRange(0, 1).Draw(t, "atlimit") == 0 && (c.Opt.MaxLen == 4000 || rapid.IntRange(0, 2).Draw(t, "atbiglimit") == 0) {
 		// a valid, authentic EVENT whose frame is exactly as long as the
 		// configured limit allows, or a little shorter
 		target := int(c.Opt.MaxLen) - rapid.SampledFrom([]int{0, 0, 1, 2, 19}).Draw(t, "below")
+		if c.Opt.MaxLen > 4000 {
+			// also well inside a large limit
+			target -= rapid.SampledFrom([]int{0, 0, 60000}).Draw(t, "inside")
+			c.Conn.Chunk = max(c.Conn.Chunk, 512)
+		}
 		e0 := simrt.EvSpec{Author: rapid.IntRange(0, 3).Draw(t, "lauthor"), Kind: 1, CreatedAt: 1700000000, Sign: true}
 		e := e0
 		e.Content = strings.Repeat("x", target-len(marshalNoEscape(msgWire(&simrt.Msg{T: "EVENT", Ev: &e0}))))
@@ -643,6 +688,9 @@ func (wsEngine) Exec(t *testing.T, cc any) *simrt.Result {
 		for i := range c.Frames {
 			if int64(len(c.Frames[i].Payload)) >= c.Opt.MaxLen-32 {
 				st.Probe("frame_at_size_limit")
+			}
+			if len(c.Frames[i].Payload) > 32768 {
+				st.Probe("frame_over_32k")
 			}
 		}
 		emit, emitWire := wsEmissions(c)
